@@ -338,6 +338,24 @@ def meshgrid(*a, **kw):
     return [ _objectify(r) for r in _np.meshgrid(*a, **kw)]
 
 
+def any_(a, *args, **kw):
+    if _has_sym(a) and not args and not kw:
+        _hit('np.any')
+        for x in _np.asarray(a, dtype=object).ravel():   # short-circuit, left to right
+            if x: return True
+        return False
+    return _np.any(a, *args, **kw)
+
+
+def all_(a, *args, **kw):
+    if _has_sym(a) and not args and not kw:
+        _hit('np.all')
+        for x in _np.asarray(a, dtype=object).ravel():
+            if not x: return False
+        return True
+    return _np.all(a, *args, **kw)
+
+
 class _NPShim(types.ModuleType):
     def __getattr__(self, name):
         return getattr(_np, name)
@@ -346,6 +364,7 @@ class _NPShim(types.ModuleType):
 def make_numpy_shim(modname):
     m = _NPShim(modname)
     g = globals()
+    m.any = any_; m.all = all_
     for k in ('array', 'asarray', 'zeros', 'ones', 'empty', 'identity', 'linalg', 'abs',
               'absolute', 'fabs', 'sqrt', 'cos', 'sin', 'arcsin', 'exp', 'log', 'floor',
               'ceil', 'argmin', 'argmax', 'nanargmax', 'nanargmin', 'argsort', 'sort',
